@@ -69,4 +69,59 @@ theorem desc_scan_overshoots_before_recheck :
     recheck cmp [(.eq, 5)] (scan F cmp true [(.eq, 5)] [(1, false), (3, false), (7, false)]) = [] := by
   decide
 
+/-! ### comparisons under another collation (F62) -/
+
+theorem collation_fact : F.bestIndexSkipsOtherCollations = true := rfl
+
+private theorem all_split (cs : List (CCon K)) (cmp : K → K → Int) (sat' : K → Con K → Bool) (k : K) :
+    cs.all (satC cmp sat' k) =
+      (sat cmp (pushed F cs) k && (cs.filter fun c => !c.binary).all (fun c => sat' k c.con)) := by
+  induction cs with
+  | nil => simp [pushed, sat]
+  | cons c cs ih =>
+    have hF : F.bestIndexSkipsOtherCollations = true := rfl
+    simp only [pushed, sat, hF] at ih ⊢
+    cases hb : c.binary <;>
+      simp [List.all_cons, satC, hb, ih, Bool.and_assoc, Bool.and_left_comm, Bool.and_comm]
+
+private theorem filter_split (cs : List (CCon K)) (cmp : K → K → Int) (sat' : K → Con K → Bool) (ks : List K) :
+    ks.filter (fun k => cs.all (satC cmp sat' k)) =
+      (ks.filter (sat cmp (pushed F cs))).filter
+        (fun k => (cs.filter fun c => !c.binary).all (fun c => sat' k c.con)) := by
+  rw [List.filter_filter]
+  congr 1
+  funext k
+  rw [all_split, Bool.and_comm]
+
+/-- **scan_complete under any collation**: whatever relation SQLite uses for the constraints that
+    are not BINARY, after its re-check the scan returns exactly the live keys satisfying ALL
+    constraints, in order — because those constraints never narrow the scan -/
+theorem scan_complete_collated (cmp : K → K → Int) (L : OrderLaws cmp) (sat' : K → Con K → Bool)
+    (desc : Bool) (cs : List (CCon K)) (es : List (Ent K)) (hs : Sorted cmp es) :
+    recheckC cmp sat' cs (scan F cmp desc (pushed F cs) es) = expectedC cmp sat' desc cs es := by
+  have hbase : recheck cmp (pushed F cs) (scan F cmp desc (pushed F cs) es) = expected cmp desc (pushed F cs) es := by
+    cases desc
+    · exact scan_complete_asc cmp L _ es hs
+    · exact scan_complete_desc cmp L _ es hs
+  unfold recheckC expectedC
+  dsimp only
+  rw [filter_split, filter_split]
+  unfold recheck at hbase
+  rw [hbase]
+  unfold expected
+  cases desc <;> simp [List.filter_reverse]
+
+/-- the defect F62 on the model without the rule: keys 3 and 103 are equal under a collation that
+    compares modulo 100; `k = 3` under it must return both, the bytewise window returns one -/
+theorem pushed_collated_eq_loses_rows :
+    let F0 : Facts := { F with bestIndexSkipsOtherCollations := false }
+    let cmp : Int → Int → Int := fun a b => if a < b then -1 else if b < a then 1 else 0
+    let sat' : Int → Con Int → Bool := fun k c => k % 100 == c.2 % 100
+    let cs : List (CCon Int) := [{ con := (.eq, 3), binary := false }]
+    let es : List (Ent Int) := [(3, false), (50, false), (103, false)]
+    recheckC cmp sat' cs (scan F0 cmp false (pushed F0 cs) es) = [3] ∧
+    expectedC cmp sat' false cs es = [3, 103] ∧
+    recheckC cmp sat' cs (scan F cmp false (pushed F cs) es) = [3, 103] := by
+  decide
+
 end S3db.Props.C06
